@@ -18,7 +18,7 @@ from ..algebra_lin import linear_form
 
 FILESET = "typhon/files/fileset.py"
 HCOMMON = "typhon/files/handlers/common.py"
-EXPECT = {"C02.table": 20, "C02.year2": 1, "C02.doy": 4, "C02.subsec": 2, "C02.endfill": 4, "C02.default_end": 3, "C02.merge": 4, "C02.reject": 4, "C02.memo": 1}
+EXPECT = {"C02.table": 20, "C02.year2": 1, "C02.doy": 4, "C02.subsec": 2, "C02.endfill": 5, "C02.default_end": 3, "C02.merge": 4, "C02.reject": 4, "C02.memo": 1}
 
 DOCUMENTED = ["year", "year2", "month", "day", "doy", "hour", "minute", "second", "millisecond"]
 FIELD = {"year": "year", "month": "month", "day": "day", "hour": "hour", "minute": "minute", "second": "second"}
@@ -342,20 +342,44 @@ def rule_endfill(ctx):
     ok = roles == ["start", "end"]
     ctx.ob("FileSet._retrieve_time_coverage.merge", ok, "end_date = datetime(**%s): overlay order %s" % (norm(kw[0]), roles),
            "{**start_args, **end_args}: missing end fields come from the start, given ones win", node=e0, func=f)
-    ro = [st for st in flow.stmts if isinstance(st, ast.If) and any(isinstance(s, ast.AugAssign) for s in st.body)]
+    ro = [st for st in flow.stmts if isinstance(st, ast.If) and isinstance(st.test, ast.Compare) and {"end_date", "start_date"} <= {n_.id for n_ in ast.walk(st.test) if isinstance(n_, ast.Name)}]
     okr = False
     fact = None
+    okcal = None
     if ro:
         st = ro[0]
-        aug = [s for s in st.body if isinstance(s, ast.AugAssign)][0]
-        fact = "if %s: %s" % (norm(st.test), norm(aug))
+        augs = [s for s in walk_no_nested(st) if isinstance(s, ast.AugAssign) and norm(s.target) == "end_date"]
+        moves = [s for s in walk_no_nested(st) if isinstance(s, ast.Assign) and norm(s.targets[0]) == "end_date"]
+        fact = "if %s: %s" % (norm(st.test), [str(norm(x_))[:70] for x_ in augs + moves])
         tt = {}
         for e, s in ((0, 1), (1, 1), (2, 1)):
             tt[(e, s)] = bool(Interp({"end_date": e, "start_date": s}).ev(st.test))
-        okr = tt == {(0, 1): True, (1, 1): False, (2, 1): False} and isinstance(aug.op, ast.Add) and norm(aug.target) == "end_date" \
-            and norm(aug.value) == "self._end_time_superior"
-    ctx.ob("FileSet._retrieve_time_coverage.rollover", okr, fact, "`if end < start: end += self._end_time_superior` (strict: an end equal to the start is not moved)",
+        ok_aug = bool(augs) and all(isinstance(a_.op, ast.Add) and norm(a_.value) == "self._end_time_superior" for a_ in augs)
+        okr = tt == {(0, 1): True, (1, 1): False, (2, 1): False} and ok_aug
+        # months and years have no fixed length: their period is added as a calendar offset, the fixed timedelta only for the others
+        cal = [c_ for m_ in moves for c_ in calls_in(m_.value, ("DateOffset", "relativedelta"))]
+        if moves and not cal:
+            raise AnalysisError("_retrieve_time_coverage: re-binding of end_date in the roll-over is not understood: %s" % str(norm(moves[0]))[:80])
+        if cal:
+            # the number of months comes from a table keyed by the month / year entries of _temporal_resolution
+            tabs = [d_ for d_ in ast.walk(st) if isinstance(d_, ast.Dict) and len(d_.keys) == 2]
+            keyed = False
+            for d_ in tabs:
+                ent = {str(norm(k_)).replace('"', "'"): const_value(v_) for k_, v_ in zip(d_.keys, d_.values) if isinstance(v_, ast.Constant)}
+                if ent == {"self._temporal_resolution['month']": 1, "self._temporal_resolution['year']": 12}:
+                    keyed = True
+            kw_ = {k_.arg for c_ in cal for k_ in c_.keywords}
+            okcal = keyed and kw_ == {"months"} and all(isinstance(parent(a_), ast.If) for a_ in augs)
+        else:
+            okcal = False
+    ctx.ob("FileSet._retrieve_time_coverage.rollover", okr, fact, "`if end < start:` (strict: an end equal to the start is not moved) the end moves by self._end_time_superior",
            node=ro[0] if ro else f.node, func=f)
+    if ro:
+        ctx.ob("FileSet._retrieve_time_coverage.rollover.calendar", bool(okcal), fact,
+               "a superior period of one month / one year is added as a calendar offset (1 / 12 months), only the fixed-length units as a timedelta: "
+               "{end_day}{end_hour} after 28 February moved the end to 4 March (31 days), {end_month}{end_day} across New Year by 366 days",
+               node=ro[0], func=f, witness=None if okcal else {"template": "{year}{month}{day}{hour}-{end_day}{end_hour}", "period": "2017-02-28 22h .. 2017-03-01 02h",
+                                                             "parsed end": "2017-03-04 02h"})
     # the superior unit
     g = ctx.func(FILESET, "FileSet._get_superior_time_resolution")
     gflow = Flow(g)
